@@ -376,7 +376,72 @@ def _global_writes(pkg):
     return out
 
 
+STATE_MUTATORS = {"append", "extend", "remove", "clear", "update", "pop", "insert", "setdefault", "add", "discard", "popitem", "sort", "reverse"}
+
+
+def discovered_state(ctx, pkg, rule="R3"):
+    """Beyond the listed globals: ANY attribute defined in a class body that some function writes at run time (cls.X = ..,
+    Class.X = .., self.X[..] = .. / self.X.update(..) where X is never bound on the instance) is process-wide state.  Today
+    there is none outside GLOBALS; a new one (a cache, a memo table) makes the result depend on what the process did before."""
+    classattrs, inst = {}, {}
+    files = [f for f in pkg.files if not f.startswith("naunet/examples/")]
+    for f in files:
+        for n in ast.walk(pkg.modules[f]):
+            if isinstance(n, ast.ClassDef):
+                a = set()
+                for st in n.body:
+                    if isinstance(st, ast.Assign):
+                        a |= {t.id for t in st.targets if isinstance(t, ast.Name)}
+                    elif isinstance(st, ast.AnnAssign) and isinstance(st.target, ast.Name):
+                        a.add(st.target.id)
+                classattrs.setdefault(n.name, set()).update(a)
+                i = inst.setdefault(n.name, set())
+                for m in ast.walk(n):
+                    if isinstance(m, (ast.Assign, ast.AugAssign, ast.AnnAssign)):
+                        for t in (m.targets if isinstance(m, ast.Assign) else [m.target]):
+                            if isinstance(t, ast.Attribute) and isinstance(t.value, ast.Name) and t.value.id == "self":
+                                i.add(t.attr)
+    listed = {a for _, a in GLOBALS}
+    allattrs = set().union(*classattrs.values()) if classattrs else set()
+    # instance attributes of ANY class in the MRO chain count as instance-level (subclasses mutate self._symbols of Component)
+    inst_all = set().union(*inst.values()) if inst else set()
+    nscan = 0
+    hits = {}
+    for f in files:
+        for qual, fn in _functions(pkg, f):
+            nscan += 1
+            for n in ast.walk(fn):
+                cands = []
+                if isinstance(n, (ast.Assign, ast.AugAssign)):
+                    for t in (n.targets if isinstance(n, ast.Assign) else [n.target]):
+                        b = t
+                        while isinstance(b, ast.Subscript):
+                            b = b.value
+                        cands.append((b, b is not t, "assignment"))
+                elif isinstance(n, ast.Call) and isinstance(n.func, ast.Attribute) and n.func.attr in STATE_MUTATORS:
+                    b = n.func.value
+                    while isinstance(b, ast.Subscript):
+                        b = b.value
+                    cands.append((b, True, f".{n.func.attr}()"))
+                for b, inplace, how in cands:
+                    if not (isinstance(b, ast.Attribute) and isinstance(b.value, ast.Name) and b.attr in allattrs and b.attr not in listed):
+                        continue
+                    o = b.value.id
+                    classlevel = o == "cls" or o in classattrs or (o == "self" and inplace and b.attr not in inst_all)
+                    if classlevel:
+                        hits.setdefault((f, qual, b.attr), (n.lineno, how, o))
+    for (f, qual, attr), (line, how, o) in sorted(hits.items()):
+        ctx.bad(rule, f"new process-wide state:{qual}:{attr}", (f, line),
+                f"`{qual}` writes `{o}.{attr}` ({how}), an attribute defined in a class body and shared by every instance and every network of the process; it is not one of "
+                "the reviewed globals: what is generated now depends on what was parsed or rendered earlier in the same process (stale cache, tables of the previous network)",
+                expected="per-instance state, or a reviewed global with a reset on every entry point", found=f"{o}.{attr} {how}")
+    if not hits:
+        ctx.ok(rule, "no process-wide state beyond the reviewed globals", ("naunet", 0), f"{nscan} functions scanned; class-body attributes are only read")
+    ctx.floor(rule, "functions scanned for class-level writes", nscan, 190)
+
+
 def _r3(ctx, pkg):
+    discovered_state(ctx, pkg, "R3")
     writes = _global_writes(pkg)
     ctx.floor("R3", "writes to process-global state", len(writes), 25)
     seen = set()
@@ -503,6 +568,12 @@ def _r4(ctx, pkg):
 
 
 MUTANTS = [
+    {"name": "component-species-cache", "edits": [
+        {"file": "naunet/component.py", "old": "class Component:\n", "new": "class Component:\n    _species_cache = {}\n"},
+        {"file": "naunet/component.py", "old": "            return Species(species_name, **kwargs)\n", "new": "            key = (species_name, *sorted(kwargs.items()))\n            if key not in self._species_cache:\n                self._species_cache[key] = Species(species_name, **kwargs)\n            return self._species_cache[key]\n"}], "rules": ["R3"]},
+    {"name": "species-symbol-table-memo", "edits": [
+        {"file": SP, "old": "    _replacement = {}\n", "new": "    _replacement = {}\n    _symtab = None\n"},
+        {"file": SP, "old": "        if not self._alias:\n            basename = self.basename\n", "new": "        if not self._alias:\n            if Species._symtab is None:\n                Species._symtab = {}\n            basename = self.basename\n"}], "rules": ["R3"]},
     {"name": "render-pops-rate-modifier", "file": "naunet/templateloader.py", "old": "            for key, value in rate_modifier.items():\n                if key == reac.idxfromfile:", "new": "            for key, value in list(rate_modifier.items()):\n                if key == reac.idxfromfile and rate_modifier.pop(key, True):", "rules": ["R5"]},
     {"name": "render-sorts-network-species", "file": "naunet/templateloader.py", "old": "        speckws = network._species_kwargs\n", "new": "        speckws = network._species_kwargs\n        network.reaction_list.sort(key=str)\n", "rules": ["R5"]},
     {"name": "species-not-sorted", "file": NF, "old": "        speclist = sorted(\n            self._reactants | self._products | set(self._required_species)\n        )\n\n        connection", "new": "        speclist = list(\n            self._reactants | self._products | set(self._required_species)\n        )\n\n        connection", "rules": ["R1"]},
